@@ -7,6 +7,10 @@ CONSTANTS
   MutDepth = 1
   VarLens = {0,1,2,249,250,251,252,253,254,255,256}
   BigLens = {}
+  BodyAlphabet = {}
+  BodyExtra = 0
+  BodyCap = 0
+  RepCap = 0
   ShortIds = {0}
   ShortPairIds = {0}
 INIT InitStruct
